@@ -59,14 +59,24 @@ def run(rep):
         items.append(dict(kind="ofs-offset", line="ofs %x" % n, req={"fn": "helpers", "what": "ofs", "n": "%x" % n}))
     res = compare(rep, PROP, items, impl=impl, model=model)
     items = []
+    origin = {}
     for it, m, r in res:
         if isinstance(r, dict) and r.get("v"):
             what = "dechdr" if it["kind"] == "object-header" else "decofs"
             items.append(dict(kind="decode-" + it["kind"], line="%s %s" % (what, r["v"] + "aabb"), req={"fn": "helpers", "what": what, "s": r["v"] + "aabb"}))
+            origin[items[-1]["line"]] = it
     for s in (b"", b"\x80", b"\x80\x80", b"\x00", b"\x80\x00", b"\xff\xff\x7f", b"\x81\x00", b"\x80\x80\x00"):
         items.append(dict(kind="decode-malformed", line="decofs " + hx(s), req={"fn": "helpers", "what": "decofs", "s": hx(s)}))
         items.append(dict(kind="decode-malformed", line="dechdr " + hx(s), req={"fn": "helpers", "what": "dechdr", "s": hx(s)}))
-    compare(rep, PROP, items, impl=impl, model=model)
+    for it, m, r in compare(rep, PROP, items, impl=impl, model=model):
+        # the implementation reading back what it wrote itself
+        o = origin.get(it["line"])
+        if o is None or not isinstance(r, dict) or "v" not in r:
+            continue
+        q = o["req"]
+        want = ("%s %s aabb" % (q["t"], q["size"])) if q["what"] == "objhdr" else ("%s aabb" % q["n"])
+        if r["v"] != want:
+            rep.fail("header-roundtrip", "dulwich decodes the %s it wrote for %s as %s" % (o["kind"], want[:-5], r["v"]), {"written": it["req"]["s"][:-4], "request": q})
     # ---- index lookup
     reqs, meta = [], []
     def mk_idx(names, shalen, version, offs=None, crcs=None, extra_probes=()):
@@ -138,13 +148,30 @@ def run(rep):
             blobs = [b2, b2[:66000] + b"patch" + b2[66000:], b2[100:]]
             opts["deltify"] = True
         reqs.append({"fn": "pack_roundtrip", "blobs": [hx(b) for b in blobs], "opts": opts, "git": k < (12 if not thorough else 200)})
+    # entries whose deflate stream ends exactly on / next to a 64 KiB read-slice boundary of the pack reader
+    import zlib
+    for target in (65535, 65536, 65537, 131072) + ((196608, 65536 * 2 - 1) if thorough else ()):
+        for level in (-1, 0):
+            n = target - 40
+            blob = None
+            for _ in range(200):
+                b = rng.randbytes(max(n, 1))
+                ln = len(zlib.compress(b, level))
+                if ln == target:
+                    blob = b
+                    break
+                n += target - ln
+            if blob is not None:
+                reqs.append({"fn": "pack_roundtrip", "blobs": [hx(blob), hx(b"tail" * 10)], "git": True, "boundary": target,
+                             "opts": {"deltify": False, "window": None, "level": level, "idx": 2}})
+    rep.extra["stream_boundary_cases"] = sum(1 for q in reqs if q.get("boundary"))
     for q, r in zip(reqs, impl.run(reqs)):
         case = {"opts": q["opts"], "blobs": [len(unhx(b)) for b in q["blobs"]]}
         rep.case("pack-roundtrip", key=repr(q)[:2000], nontrivial=len(q["blobs"]) > 1, sample=case)
         if "write_exc" in r or "read_exc" in r or "n" not in r:
             rep.fail("pack-io-failed", "writing or reading back a pack failed: %r" % (r,), case)
             continue
-        for flag in ("random_ok", "seq_ok", "check_ok", "trailer_ok", "crc_ok"):
+        for flag in ("random_ok", "seq_ok", "check_ok", "trailer_ok", "crc_ok", "derived_ok"):
             if not r.get(flag):
                 rep.fail("pack-" + flag, "pack written by dulwich: %s is false" % flag, case)
         if r.get("len") != r["n"]:
